@@ -150,7 +150,9 @@ Accepts(cls, entry, mode, k, adj, form, op, which) ==
          IF mode \in Generic7 THEN ContractRule(mode, k, adj, form)
          ELSE IF mode \in MpsOnly /\ Is1D(cls) /\ entry = "gate" THEN
            (IF k = 1 THEN "yes"
-            ELSE IF op = "H" THEN "maybe"                     \* no adjoint spelling on these routes
+            \* the adjoint reaches gate_split through the swaps' split options: it works only as long as the swaps
+            \* do not look at their options (cutoff = 0), otherwise the call raises
+            ELSE IF op = "H" /\ (mode = "swap+split" \/ (mode = "auto-mps" /\ k = 2)) THEN "maybe"
             ELSE IF mode = "swap+split" THEN (IF k = 2 THEN NeedsStruct("yes", form) ELSE "no")
             ELSE NeedsStruct("yes", form))
          ELSE "no"
